@@ -354,8 +354,9 @@ func coqPlan(n physical.Node) (string, error) {
 			keys = append(keys, k)
 		}
 		sort.Strings(keys)
-		args := make([]string, len(keys))
-		for i, k := range keys {
+		var args []string
+		tableName, tablePlan := "", ""
+		for _, k := range keys {
 			a := t.Arguments[k]
 			kn, err := coqName(k)
 			if err != nil {
@@ -367,16 +368,28 @@ func coqPlan(n physical.Node) (string, error) {
 				if err != nil {
 					return "", err
 				}
-				args[i] = fmt.Sprintf("(%s, TAExpr %s)", kn, e)
+				args = append(args, fmt.Sprintf("(%s, TAExpr %s)", kn, e))
 			case physical.TableValuedFunctionArgumentTypeDescriptor:
 				d, err := coqName(a.Descriptor.Descriptor)
 				if err != nil {
 					return "", err
 				}
-				args[i] = fmt.Sprintf("(%s, TADesc %s)", kn, d)
+				args = append(args, fmt.Sprintf("(%s, TADesc %s)", kn, d))
+			case physical.TableValuedFunctionArgumentTypeTable:
+				if tablePlan != "" {
+					return "", outside{"tvf-with-two-table-arguments"}
+				}
+				src, err := coqPlan(a.Table.Table)
+				if err != nil {
+					return "", err
+				}
+				tableName, tablePlan = kn, src
 			default:
-				return "", outside{"tvf-table-argument"}
+				return "", outside{"tvf-unknown-argument"}
 			}
+		}
+		if tablePlan != "" {
+			return fmt.Sprintf("(PTvfT %s %s %s %s %s)", s, name, tableName, lib.CoqList(args), tablePlan), nil
 		}
 		return fmt.Sprintf("(PTvf %s %s %s)", s, name, lib.CoqList(args)), nil
 	case physical.NodeTypeOuterJoin:
